@@ -27,9 +27,10 @@ Inductive case :=
 | DelayDraw (mean cap : Z) (ds : list Z) (o : dres Z)
 | Heights (prep : bool) (cap commit n : Z) (ds : list Z) (o : dres (list Z))
 | Sched (cap commit n : Z) (ds : list Z) (o : dres (list (Z * Z)))
-| AnchorDraw (iv nu63 funding tip : Z) (ws : list Z) (o : dres (option Z))
-| AnchorRedraw (iv prior broadcast : Z) (ws : list Z) (o : dres (option Z))
+| AnchorDraw (oc : bool) (iv nu63 funding tip : Z) (ws : list Z) (o : dres (option Z))
+| AnchorRedraw (oc : bool) (iv prior broadcast : Z) (ws : list Z) (o : dres (option Z))
 | Earliest (iv nu63 funding o : Z)
+| CanonDenom (lo hi v : Z) (o : option bool)        (* None = no answer within the timeout *)
 | Wakeups (margin jitter tip : Z) (ts : list (Z * Z * Z)) (ws : list Z) (bf : option Z) (o : wres).
 
 (** equalities *)
@@ -79,9 +80,10 @@ Definition run_case (c : case) : bool :=
   | DelayDraw mean cap ds o => dres_eqb Z.eqb (consumed ds (delay_draw cap ds)) o
   | Heights _ cap commit n ds o => dres_eqb lz_eqb (consumed ds (cumulative_heights cap (Z.to_nat n) commit ds)) o
   | Sched cap commit n ds o => dres_eqb (list_eqb zz_eqb) (consumed ds (schedule cap (Z.to_nat n) commit ds)) o
-  | AnchorDraw iv nu f tip ws o => dres_eqb oz_eqb (consumed ws (draw_anchor_boundary iv nu f tip ws)) o
-  | AnchorRedraw iv prior b ws o => dres_eqb oz_eqb (consumed ws (redraw_anchor_boundary iv prior b ws)) o
+  | AnchorDraw oc iv nu f tip ws o => dres_eqb oz_eqb (consumed ws (draw_anchor_boundary oc iv nu f tip ws)) o
+  | AnchorRedraw oc iv prior b ws o => dres_eqb oz_eqb (consumed ws (redraw_anchor_boundary oc iv prior b ws)) o
   | Earliest iv nu f o => earliest_broadcast_height iv nu f =? o
+  | CanonDenom lo hi v o => option_eqb Bool.eqb (is_canonical_within_opt v lo hi) o
   | Wakeups m j tip ts ws _ o => wres_eqb (wakeups_consumed ws (schedule_sync_wakeups m j tip ts ws)) o
   end.
 
@@ -119,9 +121,10 @@ Definition prop_case (c : case) : bool :=
   | Sched cap commit n ds o =>
       on_ok o (fun l k => (Z.of_nat (length l) =? n) && steps_ok cap commit (map fst l) &&
                           forallb (fun p => snd p =? expiry_spec (fst p)) l)
-  | AnchorDraw iv nu f tip ws o => on_ok o (fun b k => anchor_result_ok iv nu f tip b && (match b with None => k =? 0 | Some _ => 1 <=? k end))
-  | AnchorRedraw iv prior b ws o => on_ok o (fun x k => redraw_result_ok iv prior b x && (match x with None => k =? 0 | Some _ => 1 <=? k end))
+  | AnchorDraw _ iv nu f tip ws o => on_ok o (fun b k => anchor_result_ok iv nu f tip b && (match b with None => k =? 0 | Some _ => 1 <=? k end))
+  | AnchorRedraw _ iv prior b ws o => on_ok o (fun x k => redraw_result_ok iv prior b x && (match x with None => k =? 0 | Some _ => 1 <=? k end))
   | Earliest iv nu f o => earliest_ok iv nu f o && (o <=? u32_max)
+  | CanonDenom lo hi v o => option_eqb Bool.eqb o (Some (canonical_spec v lo hi))      (* terminates with the series answer *)
   | Wakeups m j tip ts ws bf o =>
       match o with
       | Ok (wk, k) => wakeups_ok m j tip ts bf wk && negb (is_some (first_infeasible ts))
@@ -133,7 +136,10 @@ Definition prop_case (c : case) : bool :=
 (** Known-finding classes.
     1 = a pair e ⊑ e' in which e' answers negatively a confirmatory clause that e left
         unanswered, and that flips a Conforms decision (documented obligation on evidence
-        sources; the literal "monotone over the whole lattice" reading fails there). *)
+        sources; the literal "monotone over the whole lattice" reading fails there).
+    2 = the canonical-denomination test on value 0 under a zero lower bound (an implementor of
+        PoolMigrationConstants returning max_residual_value = 0): the digit-stripping loop never
+        exits. *)
 Definition is_conforms (o : option classification) : bool :=
   match o with Some (Conforms _) => true | _ => false end.
 
@@ -142,6 +148,8 @@ Definition known_class (c : case) : N :=
   | ClassifyPair _ e e' o o' =>
       if ev_le e e' && new_negative_confirmatory e e' && is_conforms o && ocls_eqb o' (Some Nonconforming)
       then 1%N else 0%N
+  | CanonDenom lo hi v o =>
+      if (lo =? 0) && (v =? 0) && negb (is_some o) then 2%N else 0%N
   | _ => 0%N
   end.
 
@@ -174,9 +182,10 @@ Definition tag_caseZ (c : case) : Z :=
   | DelayDraw _ _ _ o => dtag o (fun d k => if k =? 1 then 38 else 39) + 0      (* 39 = redrawn above cap *)
   | Heights p _ _ n _ o => dtag o (fun hs k => if existsb (Z.eqb u32_max) hs then 41 else if n <? k then 42 else 40) + 0
   | Sched _ _ _ _ o => dtag o (fun l k => if existsb (fun p => snd p =? u32_max) l then 44 else 43) + 0
-  | AnchorDraw _ _ _ _ _ o => dtag o (fun b k => match b with None => 45 | Some _ => if k =? 1 then 46 else 47 end) + 0
-  | AnchorRedraw _ _ _ _ o => dtag o (fun b k => match b with None => 48 | Some _ => if k =? 1 then 49 else 50 end) + 0
+  | AnchorDraw _ _ _ _ _ _ o => dtag o (fun b k => match b with None => 45 | Some _ => if k =? 1 then 46 else 47 end) + 0
+  | AnchorRedraw _ _ _ _ _ o => dtag o (fun b k => match b with None => 48 | Some _ => if k =? 1 then 49 else 50 end) + 0
   | Earliest _ _ _ o => if o =? u32_max then 51 else 52
+  | CanonDenom _ _ _ o => match o with None => 61 | Some true => 62 | Some false => 63 end
   | Wakeups _ _ tip ts ws _ o =>
       match o with
       | Err _ => 53
